@@ -181,7 +181,7 @@ def shard(ctx):
     rec = ctx.rec
     monitors.install_contracts()
     maxn = 6 if ctx.quick else 8
-    n = ctx.scale(2400, 60000)
+    n = ctx.scale(12000, 60000)
     seen = {}
     i = 0
     while i < n and not rec.expired():
